@@ -343,6 +343,13 @@ func typeSize(sizes types.Sizes, typ types.Type) (size int64, ok bool) {
 			return 0, false
 		}
 	}
+	// go/types can't tell the size of a type that has a type parameter
+	// inside (a struct or an array of T): it stops with an assertion failure.
+	defer func() {
+		if recover() != nil {
+			size, ok = 0, false
+		}
+	}()
 	return sizes.Sizeof(typ), true
 }
 
